@@ -171,7 +171,10 @@ def main(tier: str, replay: str | None) -> None:
 
 
 def _sig(args: list[dict], dflt: list[str], all_: bool = False, grp: bool = False) -> str:
-    parts = [f"{a['slot']}={a['grp'] if grp else a['tag']}" for j, a in enumerate(args) if all_ or a["tag"] != dflt[j]]
+    nd = [a for j, a in enumerate(args) if all_ or a["tag"] != dflt[j]]
+    if grp and len(nd) >= 2 and all(a["grp"] == "ood" for a in nd):
+        return f"ood*{len(nd)}"   # several out-of-domain values at once: one input class per constructor and clause
+    parts = [f"{a['slot']}={a['grp'] if grp else a['tag']}" for a in nd]
     return ",".join(parts) if parts else "default"
 
 
